@@ -45,6 +45,26 @@ def i_params_immutable(F, X, rep, rid):
     rep.anchor(rid, "fields of HtlcManagerParams and TrampolineRoutingPolicy", n, 6)
 
 
+def j_init_values_verbatim(F, X, rep, rid):
+    rep.rule(rid, "the plugin framework stores the option value lightningd sent, verbatim: an integer option is the JSON number's as_i64() - no narrowing (as_u64, try_from) whose failure would fall back to the default")
+    n = 0
+    for b in F.code_bodies():
+        if "src/cln_plugin/" not in b.span.get("f", ""):
+            continue
+        for bi in sorted(b.reachable):
+            for s in b.blocks[bi]["s"]:
+                if s["k"] == "assign" and s["rv"]["k"] == "agg" and canon(s["rv"].get("adt") or "") == "cln_plugin::options::Value" and s["rv"].get("variant") == "Integer" and s["rv"]["ops"]:
+                    e = strip(X.operand(b, s["rv"]["ops"][0]))
+                    calls = [y[1] for y in walk(e) if y[0] == "call"]
+                    if not any("serde_json" in c_ for c_ in calls):
+                        continue            # not the conversion from the init message (a literal default, a test)
+                    n += 1
+                    ok = any(c_.endswith("Number::as_i64") or c_.endswith("Value::as_i64") for c_ in calls) and not any(c_.endswith("as_u64") or c_.endswith("as_f64") or "try_from" in c_ or "try_into" in c_ for c_ in calls)
+                    rep.ob(rid, ok, F.root_of(b), "integer option value is the JSON number's as_i64()", where=loc(s["sp"]), how=show(e)[:80],
+                           detail="" if ok else "an integer option is stored as %s: a configured value that does not convert (negative, large) is not refused - the option's default is used instead" % show(e)[:100])
+    rep.anchor(rid, "conversion of the init message's numbers into option values", n, 1)
+
+
 def main_body(F):
     c = [b for b in F.code_bodies() if b.coroutine and "cln_plugin/" not in b.span.get("f", "") and any(x.name == "cln_plugin::ConfiguredPlugin::start" for x in b.calls)]
     return c[0] if len(c) == 1 else None
@@ -109,6 +129,7 @@ def run(F, X, rep):
     if R.need_lc(C, rep, "C19-C"):
         PY.e_maxdelay(C, rep, "C19-C")
     i_params_immutable(F, X, rep, "C19-I")
+    j_init_values_verbatim(F, X, rep, "C19-J")
 
 
 def _agg_fields(F, X, b, adt):
